@@ -8,6 +8,11 @@ from harness.props.c02 import gen_cfg
 
 TARGETS = ["theories/Props/C11.vo"]
 GENEQ = {}
+# units added to the cone after round 2 of the seeded changes (a refused / changed unit must be noticed by this check too)
+TARGETS = TARGETS + ["theories/Proofs/GenEq_MatcherLoop.vo"]
+GENEQ = dict(GENEQ, **{"theories/Proofs/GenEq_MatcherLoop.vo": "MatcherLoop"})
+TARGETS = TARGETS + ["theories/Proofs/GenEq_MetricTable.vo"]
+GENEQ = dict(GENEQ, **{"theories/Proofs/GenEq_MetricTable.vo": "MetricTable"})
 ALLOWED_AXIOMS = []
 RULE = ("metamorphic on evaluate(): (pred, ref) vs (ref, pred) for all input types with a one-to-one matcher and a symmetric matching metric "
         "(IOU, DSC, ASSD); expected: same tp, same multisets of IoU/Dice/ASSD values (hence sq, rq, pq), fp and fn exchanged, each RVD value "
